@@ -248,7 +248,7 @@ Qed.
 Lemma invm_new_mux : forall s c g, InvA s -> InvM s -> InvM (fst (step s (ONewMux c g))).
 Proof.
   intros s c g HA H. cbn [step]. destruct (Z.ltb_spec c 0); [exact H|]. destruct (Z.eqb_spec c 0); [exact H|].
-  destruct (g <? 0); [exact H|]. destruct (g =? 0); [exact H|]. cbn [fst].
+  destruct (g <? 0); [exact H|]. destruct (g =? 0); [exact H|]. destruct (2 ^ 63 - 65 <? g); [exact H|]. cbn [fst].
   eapply (InvM_alloc s _ (KMux c g) HA H); try reflexivity.
   - intros u Hu. cbn. rewrite upd_other by exact Hu. reflexivity.
   - intros c' g' E. inversion E; subst. cbn. rewrite upd_same. rewrite repeat_length. split; [reflexivity|lia].
@@ -1021,6 +1021,7 @@ Definition enum_resize_ok_w (s : state) (e : nat) (a : Z) : Prop :=
 
 Definition ok_op_w (s : state) (o : op) : Prop :=
   match o with
+  | ONewMsg n => msg_size_ok n
   | OAppend m x | OInsert m x _ => ~ attached s x
   | OMuxInsert u x _ _ =>
       ~ attached s x \/ (memb x (usigs s u) = true /\ forall L, In x (lay s L) -> exists g, L = LG u g)
